@@ -764,6 +764,13 @@ func genQueries(rng *rand.Rand, h *gHost, n int, withBinary int) []ifQuery {
 		// sender), `::` is not IPv4 and must be refused — neither means "no --srcip given"
 		hex.EncodeToString(net.ParseIP("0.0.0.0")), hex.EncodeToString(net.ParseIP("0.0.0.0").To4()), hex.EncodeToString(net.ParseIP("::")),
 		hex.EncodeToString(net.ParseIP("255.255.255.255").To4())}
+	// … and the host's OWN addresses (an address of one interface given as the source for a target that is attached to
+	// another): --srcip overrides the source address, it does not select the interface
+	for _, t := range targets {
+		if ip := net.ParseIP(t); ip != nil && ip.To4() != nil && len(srcips) < 40 {
+			srcips = append(srcips, hex.EncodeToString(ip.To4()))
+		}
+	}
 	srcmacs := []string{"-", "-", "-", "02aabbccddee", "0200000000000001"}
 	pickIface := func() string {
 		switch k := rng.Intn(10); {
